@@ -21,6 +21,7 @@
 #include <assert.h>
 #include <ctype.h>
 #include <errno.h>
+#include <limits.h>
 #include <stdarg.h>
 #include <stdbool.h>
 #include <stddef.h>
@@ -557,6 +558,10 @@ static vnaproperty_t **list_subtree(vnaproperty_t *list,
     if (index >= vplp->vpl_length) {	/* extend case */
 	if (!add) {
 	    errno = ENOENT;
+	    return NULL;
+	}
+	if (index == INT_MAX) {		/* length must fit in an int */
+	    errno = EINVAL;
 	    return NULL;
 	}
 	if (list_check_allocation(vplp, (size_t)index + 1) == -1) {
